@@ -70,6 +70,9 @@ def worker(job):
                 except impl.Cyclic:
                     c["cyclic"] = True
                     c["nodes"] = None
+                    g_nodes = impl.dump_forest_graph(forest, gi)
+                    if len(g_nodes) <= 1500:
+                        c["graph_nodes"] = g_nodes
                 if not c.get("cyclic"):
                     c["solutions"] = forest.solutions
         except BaseException as e:  # noqa
